@@ -12,30 +12,19 @@ theorem need_ver : need .ver = 12 := by decide
 theorem need_sec : need .sec = 1 := by decide
 theorem need_init : need .init = 1 := by decide
 
-theorem offered_vncAuth_ne_nil (hs : List Nat) : offered hs secVncAuth ≠ [] := by
-  unfold offered newHandlers
-  rw [if_neg secVncAuth_ne_secNone]
-  unfold register
-  split
-  · rename_i h
-    intro h'
-    have h0 : C05.MAX_SECURITY_TYPES - 1 = 254 := by decide
-    rw [h0] at h'
-    cases hl : unregister secNone hs with
-    | nil => rw [hl] at h; simp at h
-    | cons a l => rw [hl] at h'; simp at h'
-  · intro h'
-    have h0 : C05.MAX_SECURITY_TYPES - 1 = 254 := by decide
-    rw [h0] at h'
-    simp at h'
+theorem offered_ne_nil (hs : List Handler) (legacy : List Nat) (t : Nat) : offered true hs legacy t ≠ [] := by
+  unfold offered
+  have h0 : C05.MAX_SECURITY_TYPES - 1 = 253 + 1 := by decide
+  simp [h0]
 
 /-- the correct response in state AUTHENTICATION: SecurityResult OK, state INITIALISATION, viewOnly as
 the checker says -/
-theorem procConn_auth_ok (env : Env) (scr : Screen) (hs : List Nat) (rand : List UInt8) (c : Conn)
+theorem procConn_auth_ok (env : Env) (scr : Screen) (hs : List Handler) (legacy : List Nat)
+    (rand : List UInt8) (c : Conn)
     (resp : List UInt8) (vo : Bool) (ho : c.isOpen = true) (hp : c.peerClosed = false)
     (hst : c.st = .auth) (hbuf : c.inbuf = resp) (hlen : resp.length = 16) (hv : c.viewOnly = false)
     (hchk : passwordCheck env scr.pw c.challenge resp = some vo) :
-    (procConn true env scr hs rand c).1 =
+    (procConn true env scr hs legacy rand c).1 =
       { c with inbuf := [], resp := some resp, viewOnly := vo, sent := .secResult true :: c.sent,
                st := .init } := by
   unfold procConn
@@ -53,11 +42,14 @@ theorem procConn_auth_ok (env : Env) (scr : Screen) (hs : List Nat) (rand : List
   simp [hp, hv, wr]
 
 /-- the ClientInit byte in state INITIALISATION: ServerInit, state NORMAL -/
-theorem procConn_init (fixed : Bool) (env : Env) (scr : Screen) (hs : List Nat) (rand : List UInt8)
+theorem procConn_init (fixed : Bool) (env : Env) (scr : Screen) (hs : List Handler) (legacy : List Nat)
+    (rand : List UInt8)
     (c : Conn) (b : UInt8) (ho : c.isOpen = true) (hp : c.peerClosed = false) (hst : c.st = .init)
     (hbuf : c.inbuf = [b]) :
-    (procConn fixed env scr hs rand c).1 =
-      { c with inbuf := [], sent := .serverInit :: c.sent, st := .normal } := by
+    (procConn fixed env scr hs legacy rand c).1 =
+      { c with inbuf := [], st := .normal,
+               sent := if c.tight then .tightInteractionCaps :: .serverInit :: c.sent
+                       else .serverInit :: c.sent } := by
   unfold procConn
   have h1 : ¬ (!c.isOpen) = true := by simp [ho]
   have h2 : ¬ c.st = .normal := by simp [hst]
@@ -65,16 +57,17 @@ theorem procConn_init (fixed : Bool) (env : Env) (scr : Screen) (hs : List Nat) 
   rw [if_neg h1, if_neg h2, if_neg h3, hst]
   simp only [dispatch, need_init, hbuf]
   unfold processClientInit
-  simp [hp, wr]
+  by_cases ht : c.tight <;> simp [hp, ht, wr]
 
 /-- a 3.7+ version message on a connection that has to authenticate: exactly the list that contains
 VNC authentication, state SECURITY_TYPE -/
-theorem procConn_version_list (fixed : Bool) (env : Env) (scr : Screen) (hs : List Nat) (rand : List UInt8)
+theorem procConn_version_list (env : Env) (scr : Screen) (hs : List Handler) (legacy : List Nat)
+    (rand : List UInt8)
     (c : Conn) (pv : List UInt8) (minor : Int) (hn : NeedsAuth scr c) (ho : c.isOpen = true)
     (hp : c.peerClosed = false) (hst : c.st = .ver) (hbuf : c.inbuf = pv) (hlen : pv.length = 12)
     (hparse : env.parseVer pv = some (3, minor)) (hm : ¬ minor < 7) :
-    (procConn fixed env scr hs rand c).1 =
-      { c with inbuf := [], minor := minor, sent := .secTypes (offered hs secVncAuth) :: c.sent,
+    (procConn true env scr hs legacy rand c).1 =
+      { c with inbuf := [], minor := minor, sent := .secTypes (offered true hs legacy secVncAuth) :: c.sent,
                st := .sec } := by
   unfold procConn
   have h1 : ¬ (!c.isOpen) = true := by simp [ho]
@@ -92,14 +85,15 @@ theorem procConn_version_list (fixed : Bool) (env : Env) (scr : Screen) (hs : Li
   unfold authNewClient
   simp only [hm, ne_eq, not_true_eq_false, if_false]
   unfold sendSecurityTypeList
-  simp [hb, hp, offered_vncAuth_ne_nil, wr]
+  simp [hb, hp, offered_ne_nil, wr]
 
 /-- a 3.3 version message on a connection that has to authenticate: type 2 and the challenge -/
-theorem procConn_version_33 (fixed : Bool) (env : Env) (scr : Screen) (hs : List Nat) (rand : List UInt8)
+theorem procConn_version_33 (fixed : Bool) (env : Env) (scr : Screen) (hs : List Handler)
+    (legacy : List Nat) (rand : List UInt8)
     (c : Conn) (pv : List UInt8) (minor : Int) (hn : NeedsAuth scr c) (ho : c.isOpen = true)
     (hp : c.peerClosed = false) (hst : c.st = .ver) (hbuf : c.inbuf = pv) (hlen : pv.length = 12)
     (hparse : env.parseVer pv = some (3, minor)) (hm : minor < 7) :
-    (procConn fixed env scr hs rand c).1 =
+    (procConn fixed env scr hs legacy rand c).1 =
       { c with inbuf := [], minor := minor, challenge := rand,
                sent := .challenge rand :: .secType33 secVncAuth :: c.sent, st := .auth } := by
   unfold procConn
@@ -122,10 +116,11 @@ theorem procConn_version_33 (fixed : Bool) (env : Env) (scr : Screen) (hs : List
 
 /-- choosing VNC authentication in state SECURITY_TYPE (fixed code): the challenge, whatever the
 process-global handler list holds by now -/
-theorem procConn_choose_vncAuth (env : Env) (scr : Screen) (hs : List Nat) (rand : List UInt8)
+theorem procConn_choose_vncAuth (env : Env) (scr : Screen) (hs : List Handler) (legacy : List Nat)
+    (rand : List UInt8)
     (c : Conn) (hn : NeedsAuth scr c) (ho : c.isOpen = true) (hp : c.peerClosed = false)
     (hst : c.st = .sec) (hbuf : c.inbuf = [2]) :
-    (procConn true env scr hs rand c).1 =
+    (procConn true env scr hs legacy rand c).1 =
       { c with inbuf := [], challenge := rand, sent := .challenge rand :: c.sent, st := .auth } := by
   unfold procConn
   have h1 : ¬ (!c.isOpen) = true := by simp [ho]
@@ -141,16 +136,50 @@ theorem procConn_choose_vncAuth (env : Env) (scr : Screen) (hs : List Nat) (rand
   unfold runHandler sendChallenge
   simp [hb, hp, secVncAuth_ne_secNone, wr]
 
+/-- choosing the TightVNC security type 16 on a connection that has to authenticate, with the auth
+type "VNC" and a response that passes the check all in the input: tunnelling caps, auth caps,
+challenge, SecurityResult OK, state INITIALISATION — in one call -/
+theorem procConn_choose_tight (env : Env) (scr : Screen) (hs : List Handler) (legacy : List Nat)
+    (rand : List UInt8) (c : Conn) (resp : List UInt8) (vo : Bool) (hn : NeedsAuth scr c)
+    (ho : c.isOpen = true) (hp : c.peerClosed = false) (hst : c.st = .sec) (hv : c.viewOnly = false)
+    (hbuf : c.inbuf = 16 :: 0 :: 0 :: 0 :: 2 :: resp) (hlen : resp.length = 16)
+    (hreg : hs.find? (fun h => h.type == 16) = some .tight)
+    (hchk : passwordCheck env scr.pw rand resp = some vo) :
+    (procConn true env scr hs legacy rand c).1 =
+      { c with inbuf := [], tight := true, challenge := rand, resp := some resp, viewOnly := vo,
+               st := .init,
+               sent := .secResult true :: .challenge rand :: .tightAuthCaps 1 :: .tightTunnelCaps :: c.sent } := by
+  unfold procConn
+  have h1 : ¬ (!c.isOpen) = true := by simp [ho]
+  have h2 : ¬ c.st = .normal := by simp [hst]
+  have h3 : ¬ c.inbuf.length < need c.st := by rw [hst, need_sec, hbuf]; simp
+  rw [if_neg h1, if_neg h2, if_neg h3, hst]
+  simp only [dispatch, need_sec, hbuf]
+  have hb : ∀ d : Conn, d.reverse = c.reverse → builtinType scr d = 2 :=
+    fun d hd => by
+      have : builtinType scr d = secVncAuth := builtinType_needsAuth ⟨hn.1, by rw [hd]; exact hn.2⟩
+      rw [this]; decide
+  have h16' : (16 : UInt8).toNat = 16 := by decide
+  have hcond : scr.pw ≠ PwCfg.none ∧ c.reverse = false := ⟨hn.1, hn.2⟩
+  have e4 : C05.sz_rfbAuthenticationCapsMsg = 4 := by decide
+  have e2 : C05.rfbAuthVNC = 2 := by decide
+  have e16 : C05.CHALLENGESIZE = 16 := by decide
+  have hbe : be32val (0 :: 0 :: 0 :: 2 :: resp) = 2 := by simp [be32val]
+  have ht : resp.take 16 = resp := by rw [← hlen]; exact List.take_length
+  have hd : resp.drop 16 = [] := by rw [← hlen]; exact List.drop_length
+  simp [processSecurityType, hb, h16', hreg, runRegistered, tightHandler, hp, hcond.1, hcond.2, tightAuth, wr,
+    e4, e2, e16, hbe, hlen, ht, hd, processAuth, hchk, authOk, hv]
+
 /-- `recv` then `proc` on connection `cid`, in terms of `procConn` -/
 theorem getConn_recv_proc (fixed : Bool) (env : Env) (screens : List Screen) (s : Proc) (cid : Nat)
-    (bytes : List UInt8) (c : Conn) (c' : List Nat → List UInt8 → Conn) (scr : Screen)
+    (bytes : List UInt8) (c c' : Conn) (scr : Screen)
     (hg : getConn s cid = some c)
     (hp : c.peerClosed = false) (hs : screens[c.screen]? = some scr)
-    (h : ∀ hs' rand, (procConn fixed env scr hs' rand { c with inbuf := c.inbuf ++ bytes }).1 = c' hs' rand) :
+    (h : (procConn fixed env scr s.handlers s.legacy s.rand { c with inbuf := c.inbuf ++ bytes }).1 = c') :
     getConn (step fixed env screens (step fixed env screens s (.recv cid bytes)) (.proc cid)) cid =
-      some (c' s.handlers s.rand) := by
+      some c' := by
   have e1 := getConn_recv fixed env screens s cid bytes c hg hp
-  rw [getConn_proc fixed env screens _ cid _ scr e1 hs, h]
+  rw [getConn_proc fixed env screens _ cid _ scr e1 hs, ← h]
   rfl
 
 end VncModel.Auth
